@@ -3,5 +3,6 @@
    first-flight classification; Dns.v: DNS responder; Down.v: the ingest worker's
    body downstream of parseRegMessage, DTLS Connect's parameter use, work bounds;
    Stats.v: the statistics epoch (accounting of accepted registrations against the
-   ticker's PrintAndReset) as a transition system over lock-protected regions. *)
-From CJ Require Export C11.Prim C11.Msg C11.Flight C11.Dns C11.Down C11.Stats.
+   ticker's PrintAndReset) as a transition system over lock-protected regions;
+   Hdr.v: strings.Split on the raw X-Forwarded-For values (discharges wf_req). *)
+From CJ Require Export C11.Prim C11.Msg C11.Flight C11.Dns C11.Down C11.Stats C11.Hdr.
